@@ -16,6 +16,8 @@ COMBOS = [
     ["self_employed", "poor_pensioner"],
     ["parent_elsewhere", "unemployed"],
     ["three_gen", "single"],
+    ["two_selfsufficient", "single"],
+    ["two_selfsufficient", "poor_pensioner", "unemployed"],
 ]
 
 
